@@ -112,7 +112,7 @@ func runC08(c *sim.Ctx) {
 		if c.Tier == "thorough" {
 			limit, den = 2048, 10
 		}
-		if len(mc.pre) <= limit && cfg.Chance(1, den) {
+		if len(mc.pre) <= limit && ref.Parse(mc.pre, mc.t).BigDeclared < 1<<20 && cfg.Chance(1, den) {
 			c.Count("probe.every_cut_point_enumerated")
 			for cut := 0; cut <= len(mc.pre); cut++ {
 				m2 := *mc
